@@ -253,6 +253,9 @@ def axioms_for(atoms):
         elif a[0] == "and1":  # x & 1  (with shr1(x): x = 2*shr1 + and1)
             b = Poly.atom(a)
             out.append((">=", Poly.const(1) - b))
+        elif a[0] == "ridx" and len(a) == 4:  # index yielded by `lo..hi`
+            out.append((">=", Poly.atom(a) - a[2]))
+            out.append((">=", a[3] - Poly.atom(a) - Poly.const(1)))
     # usize::MAX bounds every quantity that is itself a usize value: lengths, parameters, loaded fields, slice lengths
     um = UMAX
     if um in atoms:
@@ -418,7 +421,7 @@ def _prove1(goal, facts, budget=1500):
     # atoms nested inside interpreted atoms
     more = set()
     for a in atoms:
-        if isinstance(a, tuple) and a[0] in ("min", "div", "shr1", "and1", "chunklen"):
+        if isinstance(a, tuple) and a[0] in ("min", "div", "shr1", "and1", "chunklen", "ridx"):
             for x in a[1:]:
                 if isinstance(x, Poly):
                     more |= x.atoms()
